@@ -87,6 +87,19 @@ nni_reap(nni_reap_list *rl, void *item)
 	nni_mtx_unlock(&reap_mtx);
 }
 
+#ifdef NNG_VERIF
+// true while the reaper has work queued or in progress
+bool
+nni_verif_reap_busy(void)
+{
+	bool busy;
+	nni_mtx_lock(&reap_mtx);
+	busy = !reap_empty;
+	nni_mtx_unlock(&reap_mtx);
+	return (busy);
+}
+#endif
+
 bool
 nni_reap_sys_drain(void)
 {
